@@ -114,6 +114,76 @@ func build(race bool) (string, error) {
 	return out, nil
 }
 
+// yieldBin / yieldRoot: the race binary built from a copy of the client with
+// scheduling points around its mutex operations (cmd/yieldinst), used by runs
+// in mode "yield"; the copy lives outside /repo and /verif and is removed as
+// soon as the binary is linked.
+var yieldBin, yieldRoot string
+
+func repoDir() string { return "/repo" }
+
+func hasMode(ms []string, m string) bool {
+	for _, x := range ms {
+		if x == m {
+			return true
+		}
+	}
+	return false
+}
+
+func buildYield() error {
+	if yieldBin != "" {
+		return nil
+	}
+	run := func(dir string, name string, args ...string) error {
+		cmd := exec.Command(name, args...)
+		cmd.Dir = dir
+		cmd.Env = env()
+		var buf bytes.Buffer
+		cmd.Stdout, cmd.Stderr = &buf, &buf
+		if err := cmd.Run(); err != nil {
+			return fmt.Errorf("%s %v failed: %v\n%s", name, args, err, buf.String())
+		}
+		return nil
+	}
+	inst := filepath.Join(verifDir, "bin", "yieldinst")
+	if err := run(verifDir, goBin(), "build", "-o", inst, "./cmd/yieldinst"); err != nil {
+		return err
+	}
+	scratch, err := os.MkdirTemp("", "verif-yield-")
+	if err != nil {
+		return err
+	}
+	defer os.RemoveAll(scratch)
+	repoCopy := filepath.Join(scratch, "repo")
+	if err := run(verifDir, inst, repoDir(), repoCopy); err != nil {
+		return err
+	}
+	mod, err := os.ReadFile(filepath.Join(verifDir, "go.mod"))
+	if err != nil {
+		return err
+	}
+	ms := string(mod)
+	ms = strings.Replace(ms, "replace seata.apache.org/seata-go => /repo", "replace seata.apache.org/seata-go => "+repoCopy, 1)
+	ms = strings.Replace(ms, "=> ./third_party/gost", "=> "+filepath.Join(verifDir, "third_party", "gost"), 1)
+	if !strings.Contains(ms, repoCopy) {
+		return fmt.Errorf("go.mod has no replace line for the client to redirect")
+	}
+	modfile := filepath.Join(scratch, "go.mod")
+	if err := os.WriteFile(modfile, []byte(ms), 0o644); err != nil {
+		return err
+	}
+	if sum, err := os.ReadFile(filepath.Join(verifDir, "go.sum")); err == nil {
+		os.WriteFile(filepath.Join(scratch, "go.sum"), sum, 0o644)
+	}
+	out := filepath.Join(verifDir, "bin", "sim.yield.test")
+	if err := run(verifDir, goBin(), "test", "-c", "-race", "-tags", "verif verifyield", "-modfile", modfile, "-o", out, "./sim"); err != nil {
+		return err
+	}
+	yieldBin, yieldRoot = out, repoCopy
+	return nil
+}
+
 type child struct {
 	res  *Result
 	exit int
@@ -129,6 +199,12 @@ func runChild(bin, prop string, seed uint64, planFile, tier, mode string, wall t
 	}
 	if mode != "" {
 		args = append(args, "-mode", mode)
+	}
+	if mode == "yield" {
+		if yieldBin == "" {
+			return child{exit: 2, err: "mode yield without the instrumented binary"}
+		}
+		bin = yieldBin
 	}
 	cmd := exec.Command(bin, args...)
 	cmd.Dir = filepath.Join(verifDir, "sim")
@@ -176,7 +252,12 @@ func runChild(bin, prop string, seed uint64, planFile, tier, mode string, wall t
 	}
 	c.res = &r
 	// race-detector reports of the child become violations
-	for _, v := range raceViolations(prop, buf.String()) {
+	raceOut := buf.String()
+	if yieldRoot != "" {
+		// the instrumented copy keeps every statement on its line
+		raceOut = strings.ReplaceAll(raceOut, yieldRoot+"/", repoDir()+"/")
+	}
+	for _, v := range raceViolations(prop, raceOut) {
 		if pat, what, ok := knownOpen(prop, v.Clause, v.Class); ok {
 			if c.res.KnownHits == nil {
 				c.res.KnownHits, c.res.KnownWhat = map[string]int{}, map[string]string{}
@@ -526,6 +607,9 @@ func check(prop, tier string, runsOverride int) int {
 		}
 	}
 	bin, err := build(spec.Race)
+	if err == nil && hasMode(spec.Modes, "yield") {
+		err = buildYield()
+	}
 	if err != nil {
 		fmt.Fprintln(os.Stderr, err)
 		return 2
@@ -810,6 +894,9 @@ func replay(path string) int {
 		return 2
 	}
 	bin, err := build(spec.Race)
+	if err == nil && rf.Mode == "yield" {
+		err = buildYield()
+	}
 	if err != nil {
 		fmt.Fprintln(os.Stderr, err)
 		return 2
@@ -880,7 +967,12 @@ func selftest(props []string) int {
 			mp int
 		}
 		var jobs []jb
-		modes := spec.Modes
+		var modes []string
+		for _, m := range spec.Modes {
+			if m != "yield" { // needs the instrumented race binary; never deterministic
+				modes = append(modes, m)
+			}
+		}
 		if len(modes) == 0 {
 			modes = []string{""}
 		}
